@@ -147,6 +147,16 @@ def tlc_base_cmd(timeout, heap, dfs):
     return cmd
 
 
+def tlc_many(jobs, max_parallel=6):
+    """Run several TLC jobs (dicts of tlc() keyword arguments, each with a distinct 'name') concurrently.
+    Used for simulation: TLC's RandomElement draws are per-run, so N single-worker runs with different seeds
+    give N times the behaviours."""
+    import concurrent.futures
+    with concurrent.futures.ThreadPoolExecutor(max_workers=max_parallel) as ex:
+        futs = [ex.submit(lambda kw=kw: tlc(**kw)) for kw in jobs]
+        return [f.result() for f in futs]
+
+
 def require_ok(r, what):
     """Model-level result must be clean; a violated model invariant on the unchanged spec is a tool
     error of the check (the spec is part of the machinery), not a property violation of glas."""
